@@ -9,9 +9,13 @@ MOD = 'socks'
 SUCCESS_INPUTS = ('version_reply', 'reply_ipv4', 'reply_ipv6', 'reply_domain_name')
 
 
+def machine_raw(run):
+    return run.idx.cls('_SocksMachine', MOD)
+
+
 def machine(run):
     # (plain private helper methods the parsers share are seen inlined: see inline_self_helpers)
-    return inline_self_helpers(run.idx, run.idx.cls('_SocksMachine', MOD))
+    return inline_self_helpers(run.idx, machine_raw(run))
 
 
 def table(run):
